@@ -511,6 +511,7 @@ def execute(scn, prefix=(), base_order='fifo', keep_world=False):
     simzmq.install(w)
     zq.ZMQContext.context = (None, 0)
     zq.ZMQ_CONN_TIMEOUT = scn.get('conn_timeout') or 5000
+    zq.ZMQ_PUSH_HWM     = max(3, min(100, zq.ZMQ_CONN_TIMEOUT // max(1, zq.ZMQ_POLL_TIMEOUT)))      # derived from the time-out exactly as zeromq.py does at import
     zq.ZMQ_WARN_OLDER   = scn.get('warn_older', True)       # logging switches of zeromq.py (module constants read from the environment)
     zq.ZMQ_WARN_NEWER   = scn.get('warn_newer', True)
 
